@@ -461,6 +461,7 @@ def registry_lines(u):
     for t in u.types():
         rt = rs_ident(t)
         L.append('    r.packet::<%s::%s>("%s", "%s");' % (m, rt, u.name, t))
+        L.append('    r.stream::<%s::%s>("%s", "%s");' % (m, rt, u.name, t))
         ch = u.chain(t)
         for anc in ch[:-1]:
             L.append('    r.conv::<%s::%s, %s::%s>("%s", "%s", "%s");' % (m, rt, m, rs_ident(anc["id"]), u.name, t, anc["id"]))
@@ -1102,6 +1103,125 @@ def t_stage(prop, ctx, units, bins, vecs, info, rep, per_type):
                            "observed": detail, "direction": "trace"})
 
 
+def stream_stage(prop, ctx, units, bins, vecs, info, rep, per_type):
+    """histories with state (spec/Trace_Stream.tla): packet after packet decoded from one slice with decode_mut, value
+    after value encoded into one buffer; every recorded history must be a behaviour of the specification"""
+    rng = random.Random(ctx.seed * 104729 + 71)
+    pos = {u.name: k + 1 for k, u in enumerate(units)}
+    base_bytes, base_vals = {}, {}
+    for v in vecs:
+        key = (v["unit"].name, v["type"])
+        if v["k"] == "enc":
+            if not v["faults"] and len(v["bytes"]) <= 40:
+                base_bytes.setdefault(key, []).append(v["bytes"])
+            base_vals.setdefault(key, []).append((node_to_native(v["val"]), bool(v["faults"])))
+    reqs = []
+    for u in units:
+        if u.name not in bins or not info.get(u.name, {}).get("rust"):
+            continue
+        for t in u.types():
+            key = (u.name, t)
+            bb, bv = base_bytes.get(key), base_vals.get(key)
+            if not bb or not bv:
+                continue
+            for _ in range(per_type):
+                parts = [rng.choice(bb) for _ in range(rng.choice([1, 2, 3, 4]))]
+                if rng.random() < 0.4:
+                    k = rng.randrange(len(parts))
+                    parts[k] = mutate_bytes(rng, parts[k])
+                data = [x for p_ in parts for x in p_][:160]
+                vals = [rng.choice(bv)[0] for _ in range(rng.choice([1, 2, 3]))]
+                if rng.random() < 0.3:
+                    k = rng.randrange(len(vals))
+                    vals[k] = mutate_native(rng, vals[k])
+                reqs.append(dict(rid=len(reqs), desc=u.name, type=t, op="stream", bytes=data, values=vals, prefix=PREFIX, max=8))
+    if not reqs:
+        return
+    obs = run_rust(bins, reqs, tag="stream")
+    runs, meta = [], {}
+    NONE = native_to_node(None)
+    for r in reqs:
+        o = obs.get(r["rid"], {})
+        rr = o.get("r", {})
+        u = units[pos[r["desc"]] - 1]
+        if "abnormal" in o or not isinstance(rr, dict) or "abnormal" in rr or "events" not in rr:
+            # a panic / abort inside a call is a single-call matter (C01 / C05 own it and have their own stimuli)
+            rep.notes["stream_histories_abnormal_owned_by_C01_C05"] = rep.notes.get("stream_histories_abnormal_owned_by_C01_C05", 0) + 1
+            continue
+        evs = []
+        for e in rr["events"]:
+            res = rust_res_event(e.get("res"), e["op"] == "decode_mut")
+            if e["op"] == "encode_into" and isinstance(e.get("res"), dict) and "ok" in e["res"]:
+                res["kind"] = "ok"
+            evs.append(dict(op=e["op"], res=dict(kind=res["kind"], cls=res["cls"], val=res["val"]),
+                            after=e.get("after", 0), val=native_to_node(e["value"]) if "value" in e else NONE,
+                            buf=e.get("buf", [])))
+        rid = len(runs)
+        runs.append(dict(rid=rid, d=pos[r["desc"]], type=r["type"], bytes=r["bytes"], prefix=r["prefix"], events=evs))
+        meta[rid] = (r, rr)
+    # canaries: recorded histories with one field corrupted (the slice one octet further than reported / the caller's
+    # prefix disturbed) must be rejected - a trace specification that accepted them would be vacuous
+    canaries = {}
+    for run in runs[:400]:
+        if len(canaries) >= 40:
+            break
+        evs = run["events"]
+        if len(canaries) % 2 == 0:
+            k = next((i for i, e in enumerate(evs) if e["op"] == "decode_mut" and e["res"]["kind"] == "ok" and e["after"] > 0), None)
+        else:
+            k = next((i for i, e in enumerate(evs) if e["op"] == "encode_into" and e["buf"]), None)
+        if k is not None:
+            canaries[len(runs) + len(canaries)] = (run["rid"], k)
+    tr = os.path.join(ctx.tmp, "streams.ndjson")
+    allruns = list(runs)
+    for rid in sorted(canaries):
+        src, k = canaries[rid]
+        c = json.loads(json.dumps(runs[src]))
+        evs = c["events"][:k + 1]
+        if evs[k]["op"] == "decode_mut":
+            evs[k]["after"] -= 1
+        else:
+            evs[k]["buf"][0] ^= 0xFF
+        c["events"], c["rid"] = evs, rid
+        allruns.append(c)
+    write_ndjson(tr, allruns)
+    descs_p = os.path.join(ctx.tmp, "descs.ndjson")
+    write_ndjson(descs_p, [u.desc for u in units])
+    lines, stats = tlc("Trace_Stream", "Trace_Stream.cfg", dict(DESCS=descs_p, TRACE=tr), tag="stream")
+    rep.tlc_stats(stats)
+    reached, why = {}, {}
+    for x in parse_tagged(lines, "AT"):
+        if x["l"] >= reached.get(x["rid"], 0):
+            reached[x["rid"]] = x["l"]
+            why[x["rid"]] = x["why"]
+    # (a canary is only meaningful if its uncorrupted source was accepted)
+    live = [rid for rid, (src, k) in canaries.items() if reached.get(src, 1) == len(runs[src]["events"]) + 1]
+    accepted_canaries = [rid for rid in live if reached.get(rid, 1) == canaries[rid][1] + 2]
+    if accepted_canaries:
+        raise ToolError("Trace_Stream accepted %d corrupted histories (vacuous trace specification?)" % len(accepted_canaries))
+    rep.notes["stream_canaries_rejected"] = len(live)
+    nev = 0
+    for run in runs:
+        rep.validated()
+        nev += len(run["events"])
+        at = reached.get(run["rid"], 1)
+        if at == len(run["events"]) + 1:
+            continue
+        if why.get(run["rid"]) == "result":
+            # what the single call returned differs from the reference: C03 / C04 / C05 own it (own stimuli, own findings)
+            rep.notes["stream_histories_result_mismatch_owned_elsewhere"] = rep.notes.get("stream_histories_result_mismatch_owned_elsewhere", 0) + 1
+            continue
+        r, rr = meta[run["rid"]]
+        bad = run["events"][at - 1]
+        u = units[pos[r["desc"]] - 1]
+        rep.violation("C18|rust|%s|%s|stream_%s_%s|random" % (r["desc"], r["type"], bad["op"], bad["res"]["kind"] + (":" + bad["res"]["cls"] if bad["res"]["cls"] else "")),
+                      {"backend": "rust", "desc": u.desc, "pdl": u.src, "type": r["type"], "op": "stream",
+                       "stimulus": {"bytes": hexs(r["bytes"]), "values": r["values"], "prefix": hexs(r["prefix"])},
+                       "observed": {"events": rr["events"][:at], "first_event_that_is_no_step": at}, "direction": "trace"})
+    rep.notes["stream_histories"] = len(runs)
+    rep.notes["stream_events"] = nev
+
+
 CODEC_MODES = {
     "C01": ["dec"], "C02": ["enc"], "C03": ["enc"], "C04": ["dec"], "C05": ["enc", "bad"], "C18": ["enc", "dec", "bad"],
 }
@@ -1153,6 +1273,8 @@ def check_rust_codec(prop, ctx):
                         "expected": v["faults"] if v["k"] == "enc" else v["full"]})
     if prop != "C18":
         t_stage(prop, ctx, units, bins, vecs, info, rep, 8 if ctx.tier == "quick" else 120)
+    else:
+        stream_stage(prop, ctx, units, bins, vecs, info, rep, 4 if ctx.tier == "quick" else 40)
     rep.notes["descriptions"] = len(units)
     rep.notes["descriptions_rust_supported_and_compiled"] = len(bins)
     rep.notes["vectors_by_label"] = kinds
